@@ -10,7 +10,7 @@ func HarnessC01Options() {
 	bodyVia := svPick("body-via", 2)   // 0 SetBodyString, 1 SetBodyWriter
 	altVia := svPick("alt-via", 3)     // 0 none, 1 AddAlternativeString, 2 AddAlternativeWriter
 	penc := svPick("part-encoding", 4) // 0 inherit, 1..3 WithPartEncoding on the last body part
-	pcs := svPick("part-charset", 2)   // 0 inherit, 1 WithPartCharset(ISO-8859-1) on the first part
+	pcs := svPick("part-charset", 3)   // 0 inherit, 1 WithPartCharset(ISO-8859-1), 2 WithPartCharset(UTF-8) on the first part
 	mcs := svPick("msg-charset", 2)    // 0 default, 1 WithCharset(ISO-8859-15)
 	fileVia := svPick("file-via", 5)   // 0 none, 1 AttachReader, 2 AttachReadSeeker, 3 AttachFromIOFS, 4 EmbedFromIOFS
 	body := append(append([]byte("body "), svBytes("c", svParam("n", 1))...), '\r', '\n')
@@ -38,6 +38,9 @@ func HarnessC01Options() {
 		if isFirst && pcs == 1 {
 			o = append(o, WithPartCharset(CharsetISO88591))
 		}
+		if isFirst && pcs == 2 {
+			o = append(o, WithPartCharset(CharsetUTF8))
+		}
 		if isLast && penc > 0 {
 			o = append(o, WithPartEncoding(hxEnc(penc-1)))
 		}
@@ -46,6 +49,9 @@ func HarnessC01Options() {
 	csOf := func(isFirst bool) string {
 		if isFirst && pcs == 1 {
 			return "iso-8859-1"
+		}
+		if isFirst && pcs == 2 {
+			return "utf-8"
 		}
 		return msgCS
 	}
